@@ -22,11 +22,14 @@ structure Params where
   doorBeforeAck : Bool
   /-- the only error `CmdRunner.Start` returns is the error of `exec.Cmd.Start` itself -/
   startErrorOnlyFromExec : Bool
+  /-- the look-up-or-create of a pending slot is one critical section in both brokers (`MuxBroker.getStream`,
+  `GRPCBroker.getClientStream` / `getServerStream`) -/
+  slotLookupAtomic : Bool
   deriving DecidableEq, Repr
 
 def Params.Good (P : Params) : Prop :=
   P.noSessionResumption = true ∧ P.runnerLeavesEnv = true ∧ P.noWriteDeadlines = true ∧ P.brokerSharesSocketDir = true ∧
-    P.doorBeforeAck = true ∧ P.startErrorOnlyFromExec = true
+    P.doorBeforeAck = true ∧ P.startErrorOnlyFromExec = true ∧ P.slotLookupAtomic = true
 instance (P : Params) : Decidable P.Good := by unfold Params.Good; exact inferInstance
 
 /-- C12: is the pinned certificate consulted on the `k`-th TLS connection a client makes (0 = the first)?  A resumed
@@ -58,5 +61,10 @@ def doorOpenAtArrival (P : Params) (doorDelayMs arriveAfterAckMs : Nat) : Bool :
 
 /-- C05: `CmdRunner.Start` reported an error: can a process have been created? -/
 def launchedDespiteStartError (P : Params) : Bool := !P.startErrorOnlyFromExec
+
+/-- C06 / C07 / C09: the accepting call and the arrival of the peer's dial for one id both look the id's slot up, possibly at
+the same instant (`together`).  How many slots for that id exist afterwards?  (With two, the stream is parked in one and
+the accept waits on the other: both time out although they were issued microseconds apart.) -/
+def slotsAfterRendezvous (P : Params) (together : Bool) : Nat := if P.slotLookupAtomic || !together then 1 else 2
 
 end GoPlugin.Hygiene
